@@ -199,7 +199,13 @@ fn body(trigger: u8) {
 fn kernel_body() {
     let own = 2usize;
     let stakes: [u64; N] = [vs::any_u16() as u64, vs::any_u16() as u64, vs::any_u16() as u64];
-    let held: [Held; N] = [any_ns(), any_ns(), any_ns()];
+    let mut held: [Held; N] = [any_ns(), any_ns(), any_ns()];
+    // skip-fallback votes of the other validators (legitimate after a notar vote): their stake is
+    // in the pool's counters and must not enter the condition
+    let (sf0, sf1) = (vs::any_bool(), vs::any_bool());
+    vs::assume((!sf0 || held[0].notar != 0) && (!sf1 || held[1].notar != 0));
+    held[0].sf = sf0;
+    held[1].sf = sf1;
     let parent: [u8; 3] = [0, vs::any_below(3), 0];
     let was_pending = vs::any_bool();
     let t0 = Totals::of(&held, &stakes);
@@ -233,6 +239,7 @@ fn kernel_body() {
         vcheck!(st.pending_safe_to_notar.contains(&block_hash(1)), "a block that only waits for a skip vote or the own vote is not pending");
     }
     vcover!(cond, "safe-to-notar holds");
+    vcover!(!thr && t0.reaches(n, 1) && t0.reaches(n + t0.skip + t0.sf, 3), "skip-fallback stake would bridge the 60% threshold, skip stake alone does not");
     vcover!(r == SafeToNotarStatus::AwaitingVotes, "awaiting votes");
     vcover!(r == SafeToNotarStatus::MissingBlock, "missing block");
     std::mem::forget(st);
